@@ -549,12 +549,18 @@ class SplineParser(object):
         self.tie_prev = np.zeros(note_num, dtype=bool)
         notes = np.vectorize(self.meta_note_line, otypes=[object])(spline[note_mask])
         self.total_duration_values[note_mask] = self.note_duration_values
-        # Notes should appear in order within stream so shift tie_next by one to the right
-        # and tie next and inversingly tie_prev also
+        # Notes appear in order within the stream: a note that ends or continues a tie
+        # ("]" or "_", flagged in tie_next) is tied to the closest note before it that
+        # starts or continues a tie ("[" or "_", flagged in tie_prev). Tokens in between
+        # (e.g. grace notes) are skipped. Without such a note use the previous token.
         # Case of note to chord tie or chord to note tie is not handled yet
-        for note, to_tie in np.c_[
-            notes[self.tie_next], notes[np.roll(self.tie_next, -1)]
-        ]:
+        tie_starts = np.where(self.tie_prev)[0]
+        for idx in np.where(self.tie_next)[0]:
+            starts_before = tie_starts[tie_starts < idx]
+            prev_idx = starts_before[-1] if len(starts_before) > 0 else idx - 1
+            if prev_idx < 0:
+                continue
+            note, to_tie = notes[idx], notes[prev_idx]
             to_tie.tie_next = note
             note.tie_prev = to_tie
 
